@@ -93,9 +93,7 @@ Proof. intros [? ? ? ? ? ? ? ? ? ? ? ? ?] (A & B & C & D & E & F & G & H). simpl
 (* ---- characters: U+000D and U+0000 never reach a comment, a processing instruction or a doctype name of a
    parsed tree (the input preprocessing turns them into U+000A and U+FFFD); a reported character (control
    character, noncharacter) is kept and costs one parse-error token *)
-Definition pre_ok (c : N) : bool := negb (c =? 13) && negb (c =? 0).
-Definition char_errs (c : N) : list token := if bad_char c then [TError] else [].
-Definition bad_errs (s : list N) : list token := flat_map char_errs s.
+(* [pre_ok], [char_errs], [bad_errs]: XLexTag *)
 
 Definition pi_first (c : N) : bool := pre_ok c && negb (memb c [9; 10; 32]).
 Definition pi_trest (c : N) : bool := pre_ok c && negb (memb c [9; 10; 32]) && negb (memb c [63]).
@@ -224,10 +222,6 @@ Proof.
   intros c e X l. unfold char_errs. rewrite !rev_app_distr, <- !app_assoc.
   destruct e, (bad_char c); reflexivity.
 Qed.
-Lemma rev_bad_cons : forall c s l, rev (bad_errs (c :: s)) ++ l = rev (bad_errs s) ++ char_errs c ++ l.
-Proof. intros. unfold bad_errs. simpl. rewrite rev_app_distr, <- app_assoc. unfold char_errs. destruct (bad_char c); reflexivity. Qed.
-Lemma bad_errs_app : forall a b, bad_errs (a ++ b) = bad_errs a ++ bad_errs b.
-Proof. intros. unfold bad_errs. apply flat_map_app. Qed.
 
 Section L.
 Variable tb : table xstate.
